@@ -146,6 +146,10 @@ type PState struct {
 	cursor int
 	stream []byte
 	other  lz.Parser
+	// Poison != 0: the spare capacity of slices handed to Reset (aliasing
+	// paths) is filled with this pattern instead of zeros. The bytes behind
+	// len(data) are not part of the data: results must not depend on them.
+	Poison byte
 }
 
 // Len returns the number of buffered bytes according to the model.
@@ -572,6 +576,12 @@ func RunHistory(st *PState, pc *PCase, obs PObserver) (class, msg string, at int
 				}
 				data = make([]byte, len(src), c)
 				copy(data, src)
+				if st.Poison != 0 {
+					tail := data[len(data):cap(data)]
+					for j := range tail {
+						tail[j] = st.Poison ^ byte(j*7)
+					}
+				}
 			case 4:
 				l = st.BufferSize + 1 + op.B%5
 				src := st.take(int64(l))
